@@ -224,6 +224,7 @@ class Check:
         self.extra = {}
         self.lean_ok = True
         self._cov = None
+        self._xlines = {}
         if os.environ.get('VERIF_ANCHOR_COV', '1') != '0':
             self._start_anchor_coverage()
 
@@ -245,6 +246,18 @@ class Check:
             self._cov = None
             self.notes.append('anchor coverage not measured: %r' % (e,))
 
+    def worker_lines(self):
+        """Call inside a forked worker (after its task): lines executed so far in the anchored files, to be
+        sent back with the task result and given to merge_worker_lines() in the parent."""
+        if self._cov is None:
+            return {}
+        d = self._cov.get_data()
+        return {f: sorted(d.lines(f) or []) for f in d.measured_files()}
+
+    def merge_worker_lines(self, m):
+        for f, ls in (m or {}).items():
+            self._xlines.setdefault(f, set()).update(ls)
+
     def _anchor_coverage(self):
         import ast
         self._cov.stop()
@@ -257,6 +270,17 @@ class Check:
                 executable, missing = [], []
                 # never imported by this harness
                 out[rel] = {'note': 'file not executed by this harness'}
+                if self._xlines.get(path):
+                    # executed only in workers: statements from the parser, all missing but the workers' lines
+                    try:
+                        from coverage.python import PythonParser
+                        pp = PythonParser(filename=path)
+                        pp.parse_source()
+                        executable = sorted(pp.statements)
+                        missing = executable
+                        del out[rel]
+                    except Exception:
+                        pass
             spans = {}
 
             def walk(node, prefix):
@@ -276,7 +300,7 @@ class Check:
                     continue
                 lo, hi = spans[q]
                 ex = [l for l in executable if lo < l <= hi]   # body, not the def line
-                ms = [l for l in ex if l in set(missing)]
+                ms = [l for l in ex if l in set(missing) and l not in self._xlines.get(path, ())]
                 if not executable:
                     ms = ex = []
                 tot += len(ex)
